@@ -1524,6 +1524,43 @@ _resource_tracker""")),
 
             # Wake up the queue management thread again""")),
 
+    M("publish-id-before-item", ["C03"], ["R-ID"],
+      (PE, """            self._pending_work_items[self._queue_count] = w
+            self._work_ids.put(self._queue_count)""", """            self._work_ids.put(self._queue_count)
+            self._pending_work_items[self._queue_count] = w""")),
+    M("publish-start-before-exit-lock", ["C07", "C08"], ["R-SPAWN-SITE"],
+      (PE, """            worker_exit_lock.acquire()
+            try:""", """            try:"""),
+      (PE, """            p._worker_exit_lock = worker_exit_lock
+            p.start()""", """            p._worker_exit_lock = worker_exit_lock
+            p.start()
+            worker_exit_lock.acquire()""")),
+    M("publish-lock-attached-after-insert", ["C08"], ["R-SPAWN-SITE"],
+      (PE, """            p._worker_exit_lock = worker_exit_lock
+            p.start()
+            self._processes[p.pid] = p""", """            p.start()
+            self._processes[p.pid] = p
+            p._worker_exit_lock = worker_exit_lock""")),
+    M("total-signal-name-lookup-unguarded", ["C02", "C01"], ["R-MGR-TOTAL"],
+      (UT, """        try:
+            import signal
+
+            return signal.Signals(-exitcode).name
+        except ValueError:
+            return "UNKNOWN\"""", """        import signal
+
+        if -exitcode in signal.valid_signals():
+            return signal.Signals(-exitcode).name
+        return "UNKNOWN\"""")),
+    M("rt-defaultdict-rows", ["C11", "C13"], ["R-RT-TABLE"],
+      (RT, """    registry = {rtype: {} for rtype in _CLEANUP_FUNCS.keys()}""", """    from collections import defaultdict
+
+    registry = {rtype: defaultdict(int) for rtype in _CLEANUP_FUNCS.keys()}"""),
+      (RT, """                        if name not in registry[rtype]:
+                            registry[rtype][name] = 1
+                        else:
+                            registry[rtype][name] += 1""", """                        registry[rtype][name] += 1""")),
+
 ]
 
 
